@@ -58,7 +58,9 @@ def cases(run: Run):
         used = set()
         for iid in range(rng.randint(1, 3)):
             kind = rng.random()
-            if kind < 0.55:
+            if kind < 0.12:
+                t = rng.randint(1, 7)  # the first seconds of scenario time, where one ulp of t is below the event function's zero snap
+            elif kind < 0.55:
                 t = rng.randint(1, N - 1) * dt
             elif kind < 0.75:
                 t = rng.randint(1, N - 1) * dt + rng.choice([-1, 1])
@@ -70,7 +72,8 @@ def cases(run: Run):
             imps.append({"id": iid, "t": t, "dv": [0.0, rng.choice([0.01, 0.05, -0.02]), 0.003], "frame": rng.choice(["eci", "ntw"]), "planned": rng.random() < 0.3})
         out.append({"op": "impulse", "start": start.isoformat(), "dt": dt, "N": N, "imps": imps})
     # starts on which whole fractions of a day make scenario times land exactly on step boundaries
-    for start, dt, t in ((datetime(2021, 3, 30, 12, 0, 0), 300, 2700), (datetime(2021, 3, 30, 12, 0, 0), 60, 2700), (datetime(2021, 3, 30, 0, 0, 0), 675, 675)):
+    for start, dt, t in ((datetime(2021, 3, 30, 12, 0, 0), 300, 2700), (datetime(2021, 3, 30, 12, 0, 0), 60, 2700), (datetime(2021, 3, 30, 0, 0, 0), 675, 675),
+                         (datetime(2021, 3, 30, 16, 0, 0), 60, 3), (datetime(2021, 3, 30, 16, 0, 0), 60, 6)):
         out.append({"op": "impulse", "start": start.isoformat(), "dt": dt, "N": t // dt + 3, "imps": [{"id": 0, "t": t, "dv": [0.0, 0.05, 0.0], "frame": "eci", "planned": False}]})
     return out
 
